@@ -440,7 +440,7 @@ def shutdown_search(repo, prop, tier, seed=1):
     fcntl.flock(lockf, fcntl.LOCK_EX)
     try:
         count = 300000 if tier == "thorough" else 20000
-        res = {"what": "bounded replay of C09 on the real `des` crate: %d seeded random scenarios - module a (1..3 start-up stages, a task ticking every 10/20/30 ms for 1..6 ticks) asks at 11..81 ms for shutdown without restart or with restart after 10..60 ms; module b sends it 0..4 messages, sends 0..4 messages to module c through two transit gates of a, 0..4 over a direct link, and ticks itself. Expected and compared event for event (module, what, time): start-up stages at 0 and once more at exactly the restart time, ticks of the first task only before the shutdown and of the task spawned by the restart afterwards, reset exactly once at the shutdown time, messages to a and through a's gates handled iff a is up when they arrive (dropped ones never show up later), b's ticks and the direct link unaffected; reset runs in a's own context, a message a sends in the requesting event and the one it sends in start-up stage 0 (also on restart) reach c; run() returns Ok" % count,
+        res = {"what": "bounded replay of C09 on the real `des` crate: %d seeded random scenarios - module a (1..3 start-up stages, a task ticking every 10/20/30 ms for 1..6 ticks) asks at 11..81 ms for shutdown without restart or with restart after 0..60 ms (0 = at the requesting instant; half of the requests through shutdow_and_restart_at with an absolute time); in a quarter of the scenarios the restarted module asks for another shutdown + restart (10..40 ms) from its start-up stage 0: all its stages still run, it is reset once more and its third incarnation starts on time; module b sends it 0..4 messages, sends 0..4 messages to module c through two transit gates of a, 0..4 over a direct link, and ticks itself. Expected and compared event for event (module, what, time): start-up stages at 0 and once more at exactly the restart time, ticks of the first task only before the shutdown and of the task spawned by the restart afterwards, reset exactly once at the shutdown time, messages to a and through a's gates handled iff a is up when they arrive (dropped ones never show up later), b's ticks and the direct link unaffected; reset runs in a's own context, a message a sends in the requesting event and the one it sends in start-up stage 0 (also on restart) reach c; run() returns Ok" % count,
                "bound": "%d random scenarios; seed %d" % (count, seed), "labelled": "bounded", "counts_as_proof": False}
         exe, err = _build_rt(repo, "shutdown_driver")
         if exe is None:
